@@ -88,17 +88,36 @@ type failReader struct {
 	seek    bool
 }
 
+// the failure a reader reports comes in several kinds: a plain error, one that says it is a timeout (a network read deadline), one that
+// says it is temporary - a failure all the same, wrapping the injected cause
+type kindErr struct{ timeout, temporary bool }
+
+func (e *kindErr) Error() string   { return "verif: injected I/O failure (i/o timeout)" }
+func (e *kindErr) Timeout() bool   { return e.timeout }
+func (e *kindErr) Temporary() bool { return e.temporary }
+func (e *kindErr) Unwrap() error   { return errInjected }
+
+func (f *failReader) failure() error {
+	switch f.failAt % 3 {
+	case 1:
+		return &kindErr{timeout: true}
+	case 2:
+		return &kindErr{temporary: true}
+	}
+	return errInjected
+}
+
 func (f *failReader) Read(p []byte) (int, error) {
 	if f.pos >= f.failAt {
 		f.fired++
-		return 0, errInjected
+		return 0, f.failure()
 	}
 	n := len(p)
 	if n > f.failAt-f.pos {
 		n = f.failAt - f.pos
 		if !f.partial { // fail instead of delivering the partial read
 			f.fired++
-			return 0, errInjected
+			return 0, f.failure()
 		}
 	}
 	if n > len(f.b)-f.pos {
